@@ -1,1 +1,2 @@
 //! Independent reference implementations.
+pub mod hcobs_ref;
